@@ -66,11 +66,7 @@ def _small(v, n):
     return not isinstance(v, str) or len(v) <= n
 
 
-def cond_roundtrip_leaves(a: Leaf, b: Leaf) -> bool:
-    """
-    pre: _small(a, 2) and _small(b, 2)
-    post: _
-    """
+def _roundtrip_leaves(a, b):
     _reset()
     v = {'signatures': {}, 'signed': {'x': a, 'l': [b]}}
     C.write_metadata_to_file(v, 'f')
@@ -79,11 +75,16 @@ def cond_roundtrip_leaves(a: Leaf, b: Leaf) -> bool:
     return raw == C.canonserialize(v) and _same(back, v) and C.canonserialize(back) == raw
 
 
-def cond_roundtrip_whole_floats(i: int) -> bool:
+def cond_roundtrip_leaves(a: Leaf, b: Leaf) -> bool:
     """
-    pre: -10**15 < i < 10**15
+    pre: _small(a, 2) and _small(b, 2)
     post: _
     """
+    return _roundtrip_leaves(a, b)
+
+
+
+def _roundtrip_whole_floats(i):
     _reset()
     v = {'threshold': float(i), 'version': i}
     C.write_metadata_to_file(v, 'g')
@@ -91,11 +92,16 @@ def cond_roundtrip_whole_floats(i: int) -> bool:
     return _same(back, v) and C.canonserialize(back) == _content('g')
 
 
-def cond_overwrite_equal_but_different(i: int) -> bool:
+def cond_roundtrip_whole_floats(i: int) -> bool:
     """
-    pre: 0 <= i <= 3
+    pre: -10**15 < i < 10**15
     post: _
     """
+    return _roundtrip_whole_floats(i)
+
+
+
+def _overwrite_equal_but_different(i):
     _reset()
     C.write_metadata_to_file({'threshold': float(i), 'final': bool(i)}, 'h')
     v2 = {'threshold': i, 'final': i}
@@ -103,11 +109,16 @@ def cond_overwrite_equal_but_different(i: int) -> bool:
     return _content('h') == C.canonserialize(v2)
 
 
-def cond_overwrite_longer_by_shorter(a: str, i: int) -> bool:
+def cond_overwrite_equal_but_different(i: int) -> bool:
     """
-    pre: len(a) <= 2 and 0 <= i <= 9
+    pre: 0 <= i <= 3
     post: _
     """
+    return _overwrite_equal_but_different(i)
+
+
+
+def _overwrite_longer_by_shorter(a, i):
     _reset()
     C.write_metadata_to_file({'signatures': {}, 'signed': {'padding': 'x' * 40, 'a': a, 'n': [i, i, i]}}, 'h')
     v2 = {'signed': i}
@@ -115,13 +126,28 @@ def cond_overwrite_longer_by_shorter(a: str, i: int) -> bool:
     return _content('h') == C.canonserialize(v2) and C.load_metadata_from_file('h') == v2
 
 
-def cond_envelope_roundtrip_keeps_signature_map(k: str, a: Leaf) -> bool:
+def cond_overwrite_longer_by_shorter(a: str, i: int) -> bool:
     """
-    pre: len(k) <= 3 and _small(a, 1)
+    pre: len(a) <= 2 and 0 <= i <= 9
     post: _
     """
+    return _overwrite_longer_by_shorter(a, i)
+
+
+
+def _envelope_roundtrip_keeps_signature_map(k, a):
     _reset()
     v = {'signatures': {k: {'signature': 'ab' * 64}, 'AB' + k: {'signature': 'cd' * 64}}, 'signed': {'x': a}}
     C.write_metadata_to_file(v, 'e')
     back = C.load_metadata_from_file('e')
     return _same(back, v) and C.canonserialize(back) == _content('e')
+
+
+
+def cond_envelope_roundtrip_keeps_signature_map(k: str, a: Leaf) -> bool:
+    """
+    pre: len(k) <= 3 and _small(a, 1)
+    post: _
+    """
+    return _envelope_roundtrip_keeps_signature_map(k, a)
+
